@@ -483,6 +483,20 @@ func c19RoundTrip(r *vr.Report, c c19Msg) {
 		r.Violationf("C19:roundtrip:mrt:reparse-error:"+c.kind, cs, "%s serialises to %x which does not parse back: %v", c.name, b1, err)
 		return
 	}
+	// normalisation: RFC 6396 4.3.4 abbreviates MP_REACH_NLRI inside a RIB entry to the next hop; the
+	// attribute's cached header Length (full form when constructed, abbreviated form when parsed) is a
+	// derived wire detail, the content and the re-serialised bytes are compared
+	for _, mm := range []*MRTMessage{m, m2} {
+		if rib, ok := mm.Body.(*Rib); ok {
+			for _, e := range rib.Entries {
+				for _, a := range e.PathAttributes {
+					if mp, ok := a.(*bgp.PathAttributeMpReachNLRI); ok {
+						mp.Length = 0
+					}
+				}
+			}
+		}
+	}
 	if ok, path := c19lib.Equal(m, m2); !ok {
 		r.Violationf("C19:roundtrip:mrt:not-equal:"+c.kind, cs, "%s -> %x -> parsed message differs at %s", c.name, b1, path)
 		return
@@ -611,8 +625,24 @@ func TestVerif_C19_MRT(t *testing.T) {
 		TailFull: 1,
 	}
 	if vr.Thorough() {
-		plan.Entries = entries
-		plan.Groups = []c19lib.StrGroup{{Label: "boundary<=4", Entries: entries, Alpha: c19lib.Boundary, MaxLen: 4}}
+		// thorough: the primary entry points keep all three executions; the others get the full alphabet
+		// up to length 3 with cap==len only (1.8 G calls otherwise) and the boundary alphabet up to 4 in all modes
+		var secondary []*c19lib.Entry
+		isPrimary := map[*c19lib.Entry]bool{}
+		for _, e := range primary {
+			isPrimary[e] = true
+		}
+		for _, e := range entries {
+			if !isPrimary[e] {
+				c := *e
+				c.TightOnly = true
+				secondary = append(secondary, &c)
+			}
+		}
+		plan.Groups = []c19lib.StrGroup{
+			{Label: "secondary full<=3 cap==len", Entries: secondary, Alpha: c19lib.FullAlphabet(), MaxLen: 3},
+			{Label: "boundary<=4", Entries: entries, Alpha: c19lib.Boundary, MaxLen: 4},
+		}
 		plan.Opt = c19lib.MutOpt{AllByteValues: true, Pairs: true, PairStride: 3}
 		plan.TailFull, plan.TailBoundary = 2, 3
 	}
